@@ -207,6 +207,11 @@ ocp.set_der(v, a)
                 self.B[refine][self.N+d] = B
                 self.tau[refine] = tau
         self.time[refine] = self.time_grid(self.t0, self.T, self.N*refine)
+        if refine>1:
+            # The basis matrices subdivide every control interval equally; on a non-uniform grid that is
+            # not the grid object evaluated with N*refine intervals
+            [tau_refined,_] = eval_on_knots(self.xi,0,subsamples=refine-1)
+            self.time[refine] = ca.reshape(self.t0 + tau_refined*self.T, self.time[refine].shape)
 
         # Evaluate spline on the control grid
         for L,chains in self.groups.items():
